@@ -3,14 +3,14 @@
 # usage: tools/matrix.sh [out-file]      env: MUTANTS="C01/m1 ..." PROPS="C01 ..." TIER=quick
 set -u
 OUT="${1:-/tmp/matrix/result.tsv}"
-W=/tmp/matrix
+W="${MATRIX_DIR:-/tmp/matrix}"
 rm -rf $W/sim $W/out; mkdir -p $W/out
 git -C /repo worktree remove --force $W/repo 2>/dev/null
 git -C /repo worktree add -q $W/repo HEAD
 rsync -a --exclude target /verif/sim/ $W/sim/
 sed -i "s#path = \"/repo\"#path = \"$W/repo\"#" $W/sim/Cargo.toml
 PROPS="${PROPS:-C01 C02 C03 C04 C05 C06 C07 C08 C09 C10 C11 C12 C13 C14 C15 C16 C17}"
-MUTANTS="${MUTANTS:-$(cd /verif/seeded && ls -d C*/m* | tr '\n' ' ')}"
+MUTANTS="${MUTANTS:-$(cd /verif/seeded && find . -name patch.diff -printf '%h\n' | sed 's#^\./##' | sort | tr '\n' ' ')}"
 : > "$OUT"
 for M in $MUTANTS; do
   git -C $W/repo checkout -q -- .
